@@ -4,7 +4,7 @@ property it breaks (checks named in meta.json 'also' are tried if the first one 
 import json, os, subprocess, sys, tempfile, glob, re
 from concurrent.futures import ThreadPoolExecutor
 
-ALSO = {"C14-limb-cone-wrong-radius": ["C02"]}
+ALSO = {"C14-limb-cone-wrong-radius": ["C02"], "C02-missed-obs-output-interval": ["C09"]}
 
 
 def one(d):
